@@ -70,3 +70,23 @@ Theorem C03_alternatives_cover_the_pattern : forall orbit t w,
   (exists a, In a (into_alternatives t) /\ Lang orbit a w) <-> Lang orbit t w.
 Proof. exact into_alternatives_lang. Qed.
 Print Assumptions C03_alternatives_cover_the_pattern.
+
+From WaxModel Require Import Rule.
+From WaxProofs Require Import ZomFacts ExhaustFacts NegationWalkFacts.
+
+(* end to end for the negations people write: every alternative of the negated pattern is a flat, rule-checked pattern that does
+   not end in a separator (`**/target/**`, `*.md`, `**/.git/**`, `src/**/*.tmp`, any() of such); the two programs are run by engines
+   that decide the documented languages of the two parts (the regex crate on the compiled programs, through C01_conformance);
+   the negation does not match the empty path.  Then (1) the negation filter matches exactly the paths in the documented language
+   of the pattern, and (2) over any tree with valid names, any underlying stack and depth window, not() yields exactly the entries
+   of the underlying walk that the pattern does not match.  Nothing about exhaustiveness is assumed: the promise of each Always
+   verdict is proved (C09_flat_always_sound) *)
+Theorem C03_negation_of_flat_patterns_is_a_filter : forall orbit t ext nxt exh nonexh,
+  Forall flat_ok (into_alternatives t) -> not_partition t = Ok (ext, nxt) ->
+  decides orbit exh ext -> decides orbit nonexh nxt -> opt_match exh [] = false ->
+  (forall q, matched exh nonexh q = true <-> Lang orbit t (join_path q)) /\
+  forall ls mind maxd root, names_valid root ->
+    yields (walk mind maxd (ls ++ [nl exh nonexh]) root) =
+    filter (fun q => negb (matched exh nonexh q)) (yields (walk mind maxd ls root)).
+Proof. exact negation_walk_flat. Qed.
+Print Assumptions C03_negation_of_flat_patterns_is_a_filter.
